@@ -11,7 +11,7 @@ Definition str := list N.
    A string carries the result of parsing it as RFC 3339 (oracle). *)
 Inductive json :=
 | JNull | JBool (b : bool)
-| JNum (iz : option Z) (f32 f64 : option N)
+| JNum (iz : option Z) (plain : bool) (f32 f64 : option N)   (* plain: the literal is a plain run of digits (what a uint32 tag accepts) *)
 | JStr (s : str) (t : option (Z * Z))
 | JArr (l : list json)
 | JObj (tag : option json) (dt : option json) (v : option json).   (* the three recognised keys *)
@@ -25,14 +25,14 @@ Section JsonIn.
   Definition in_sb (bits : Z) (z : Z) : bool := ((- 2 ^ (bits - 1) <=? z) && (z <? 2 ^ (bits - 1)))%Z.
 
   Definition conv_u (bits : Z) (mk : N -> gval) (j : json) : option gval :=
-    match j with JNum (Some z) _ _ => if in_u bits z then Some (mk (Z.to_N z)) else None | _ => None end.
+    match j with JNum (Some z) _ _ _ => if in_u bits z then Some (mk (Z.to_N z)) else None | _ => None end.
   Definition conv_s (bits : Z) (mk : Z -> gval) (j : json) : option gval :=
-    match j with JNum (Some z) _ _ => if in_sb bits z then Some (mk z) else None | _ => None end.
+    match j with JNum (Some z) _ _ _ => if in_sb bits z then Some (mk z) else None | _ => None end.
 
   Fixpoint conv_bytes (l : list json) : option (list N) :=
     match l with
     | [] => Some []
-    | JNum (Some z) _ _ :: r => if in_u 8 z then option_map (cons (Z.to_N z)) (conv_bytes r) else None
+    | JNum (Some z) _ _ _ :: r => if in_u 8 z then option_map (cons (Z.to_N z)) (conv_bytes r) else None
     | _ => None
     end.
 
@@ -43,7 +43,7 @@ Section JsonIn.
   Definition tag_of (j : json) : option N :=
     match j with
     | JStr s _ => tag_of_name s
-    | JNum (Some z) _ _ => if in_u 32 z then Some (Z.to_N z) else None
+    | JNum (Some z) true _ _ => if in_u 32 z then Some (Z.to_N z) else None
     | _ => None
     end.
   Definition dt_of (j : json) : option N := match j with JStr s _ => dt_of_name s | _ => None end.
@@ -51,14 +51,14 @@ Section JsonIn.
   (* value conversion for every data type except Container *)
   Definition conv_scalar (dt : N) (j : json) : option gval :=
     if dt =? 0 then Some GNil else
-    if dt =? 1 then match j with JBool b => Some (GBool b) | JNum (Some 0%Z) _ _ => Some (GBool false)
-                               | JNum (Some 1%Z) _ _ => Some (GBool true) | _ => None end else
+    if dt =? 1 then match j with JBool b => Some (GBool b) | JNum (Some 0%Z) _ _ _ => Some (GBool false)
+                               | JNum (Some 1%Z) _ _ _ => Some (GBool true) | _ => None end else
     if dt =? 2 then conv_s 8 GI8 j else if dt =? 3 then conv_u 8 GU8 j else
     if dt =? 4 then conv_s 16 GI16 j else if dt =? 5 then conv_u 16 GU16 j else
     if dt =? 6 then conv_s 32 GI32 j else if dt =? 7 then conv_u 32 GU32 j else
     if dt =? 8 then conv_s 64 GI64 j else if dt =? 9 then conv_u 64 GU64 j else
-    if dt =? 10 then match j with JNum _ (Some b) _ => Some (GF32 b) | _ => None end else
-    if dt =? 11 then match j with JNum _ _ (Some b) => Some (GF64 b) | _ => None end else
+    if dt =? 10 then match j with JNum _ _ (Some b) _ => Some (GF32 b) | _ => None end else
+    if dt =? 11 then match j with JNum _ _ _ (Some b) => Some (GF64 b) | _ => None end else
     if dt =? 12 then conv_u 8 GU8 j else
     if dt =? 13 then match j with JStr s _ => Some (GStr s) | _ => None end else
     if dt =? 15 then match j with JStr _ (Some (s, ns)) => Some (GTime s ns) | _ => None end else
@@ -84,7 +84,7 @@ Section JsonIn.
           end
         else match conv_scalar dt jv with Some v => Ok v | None => Err end in
       match j with
-      | JStr _ _ | JNum _ _ _ =>
+      | JStr _ _ | JNum _ _ _ _ =>
           match tag_of j with Some t => Ok (Msg t (infer t) GNil) | None => Err end
       | JArr [jt] => match tag_of jt with Some t => Ok (Msg t (infer t) GNil) | None => Err end
       | JArr [jt; j2] =>
